@@ -105,6 +105,46 @@ def concept_case(out: Outcome, rng, cls: str, lines, expect) -> None:
     out.case({"class": cls, "params": p, "n": len(xs), "resets": resets}, nontrivial=True)
 
 
+def two_callbacks_case(out: Outcome, rng, cls: str) -> None:
+    """two history callbacks on one detector record the same thing: same tracked variables, same entries"""
+    p = gen.rand_params(rng, cls)
+    xs = gen.stream_for(rng, cls, rng.randint(10, 60))
+    c1, c2 = HistoryConceptDrift(name="h"), HistoryConceptDrift(name="h2")
+    det = dets.make(cls, p, callbacks=[c1, c2])
+    rep = {"class": cls, "params": p, "stream": xs, "callbacks": 2}
+    logs = None
+    for x in xs:
+        logs = det.update(value=x)
+    if sorted(c1.history) != sorted(c2.history):
+        out.violation(f"{cls}: the second of two history callbacks tracks {sorted(c2.history)}, the first {sorted(c1.history)}", rep)
+    else:
+        for k in c1.history:
+            a, b = c1.history[k], c2.history[k]
+            if len(a) != len(xs) or len(b) != len(xs) or any(isinstance(u, SCALAR) and not same(u, v) for u, v in zip(a, b)):
+                out.violation(f"{cls}: the two history callbacks disagree on '{k}' ({len(a)} / {len(b)} entries for {len(xs)} updates)", rep)
+                break
+    if logs is not None and (set(logs) != {"h", "h2"} or any(logs[n][k] is not c.history[k] for n, c in (("h", c1), ("h2", c2)) for k in c.history)):
+        out.violation(f"{cls}: the logs returned by update are not the two callbacks' histories", rep)
+    out.case({"class": cls, "two_callbacks": True, "n": len(xs)}, nontrivial=True)
+
+
+def long_history_case(out: Outcome, rng, cls: str, n: int) -> None:
+    """more than ten thousand updates: entry i is still update i (nothing dropped, nothing thinned out)"""
+    xs = gen.stream_for(rng, cls, 400)
+    xs = (xs * (n // len(xs) + 1))[:n]
+    cb = HistoryConceptDrift(name="h")
+    det = dets.make(cls, {}, callbacks=[cb])
+    for x in xs:
+        det.update(value=x)
+    h = cb.history
+    rep = {"class": cls, "n": n, "kind": "long history"}
+    if any(len(v) != n for v in h.values()):
+        out.violation(f"{cls}: after {n} updates the tracked variables have { {k: len(v) for k, v in h.items()} } entries", rep)
+    elif [float(v) for v in h["value"]] != [float(v) for v in xs] or list(h["num_instances"][:50]) != list(range(1, 51)):
+        out.violation(f"{cls}: after {n} updates entry i of the history is no longer the input value / instance count of update i", rep)
+    out.case({"class": cls, "long_history": n}, nontrivial=True)
+
+
 def reset_case(out: Outcome, rng, cls) -> None:
     ref = np.array([rng.gauss(0, 1) for _ in range(rng.randint(8, 30))])
     test = np.array([rng.gauss(rng.choice([0, 0.5, 1.5]), 1) for _ in range(rng.randint(8, 30))])
@@ -152,6 +192,10 @@ def run(out: Outcome) -> None:
     for cls in dets.CLASSES:
         for _ in range(5 if thorough else 2):
             concept_case(out, rng, cls, lines, expect)
+    for cls in (dets.CLASSES if thorough else rng.sample(dets.CLASSES, 5)):
+        two_callbacks_case(out, rng, cls)
+    for cls in (["DDM", "CUSUM", "EDDM"] if thorough else [rng.choice(["DDM", "CUSUM", "HDDMA"])]):
+        long_history_case(out, rng, cls, rng.randint(10300, 11500))
     for cls in (KSTest, AndersonDarlingTest, CVMTest, MannWhitneyUTest, WelchTTest):
         for _ in range(4 if thorough else 1):
             reset_case(out, rng, cls)
